@@ -770,6 +770,75 @@ def Scr.redraw (x : Scr) (n : Nat) (erase : Bool) (lines : List Str) : Scr :=
 /-- the rows of the terminal from the top -/
 def Scr.rows (x : Scr) : List Str := x.aboveRev.reverse ++ x.cur :: x.below
 
+/-! ## A whole ANSI history on the terminal with rows
+
+The model's output is the exact list of `stream.write` calls.  `_overwrite` sends every command in a
+write of its own (`"\r"`, `"\x1b[{n}A"`, `"\x1b[0J"`, then the text), so the terminal reads a history
+write by write: a write is a carriage return, the erase command, a cursor-up command in the form the
+code produces it (`ESC [ <decimal n> A`), or text (printable characters and line breaks).  Texts are
+only read correctly when they contain neither a carriage return nor ESC (`printableB`). -/
+
+/-- the `n` of a write that is exactly `"\x1b[{n}A"` (canonical decimal, as `str.format` prints it) -/
+def parseCursorUp (w : Str) : Option Nat :=
+  match w with
+  | _ :: '[' :: r =>
+    let k := digitsVal r.dropLast 0
+    if w = cursorUp k then some k else none
+  | _ => none
+
+/-- one `stream.write(w)` on the terminal -/
+def Scr.write (x : Scr) (w : Str) : Scr :=
+  if w = ['\r'] then x.cr
+  else if w = Clikit.Progress.eraseDown then x.eraseDown
+  else match parseCursorUp w with
+    | some n => x.up n
+    | none => x.putLines (splitNL w)
+
+/-- the writes of one call -/
+def Scr.feed (x : Scr) (ws : List Str) : Scr := ws.foldl Scr.write x
+
+/-- the terminal after a history (with setters), started from `x` -/
+def screenC (x : Scr) (evs : List CEvent) : Scr := evs.foldl (fun x e => x.feed e.res.writes) x
+
+/-- the terminal before the bar wrote anything: the cursor at column 0 of an empty row, nothing below,
+`k` blank rows directly above it, and above those whatever was printed earlier (`restRev`, nearest row
+first) -/
+def Scr.fresh (k : Nat) (restRev : List Str) : Scr := ⟨List.replicate k [] ++ restRev, [], 0, []⟩
+
+/-- the terminal that shows exactly the lines `L` below the rows `aboveRev` (nearest first): the cursor
+stands at the end of the last line, nothing below -/
+def Scr.showing : List Str → List Str → Scr
+  | ab, [] => ⟨ab, [], 0, []⟩
+  | ab, [l] => ⟨ab, l, l.length, []⟩
+  | ab, l :: l2 :: ls => Scr.showing (l :: ab) (l2 :: ls)
+
+/-- the lines a writing call puts on an ANSI output: the lines of the frame, each padded to the longest
+line of the previous message; for `clear()` as many blank lines as the format in use has lines -/
+def shownLines (e : CEvent) : List Str :=
+  match e.res.frame with
+  | some f => (splitNL f.text).map (ljust e.pre.lastLen)
+  | none => List.replicate (e.res.st.formatLineCount + 1) (spaces e.pre.lastLen)
+
+/-- the lines of the latest call that wrote anything (`acc` if none did) -/
+def lastLinesFrom (acc : Option (List Str)) : List CEvent → Option (List Str)
+  | [] => acc
+  | e :: es => lastLinesFrom (if e.res.writes.isEmpty then acc else some (shownLines e)) es
+
+/-- no carriage return, no ESC: text the terminal reads as text -/
+def printableB (s : Str) : Bool := s.all (fun ch => ch != '\r' && ch != ESC)
+
+/-- the hypotheses of `Props.C16.ansi_screen_shows_latest_frame` on the events of a history: every frame
+drawn has as many line breaks as the format in use and is printable -/
+def framesFitB (evs : List CEvent) : Bool :=
+  evs.all (fun e => match e.res.frame with
+    | some f => countNL f.text == e.res.st.formatLineCount && printableB f.text
+    | none => true)
+
+/-- ... and the first write moves up over at most `k` rows -/
+def firstMoveB (k : Nat) (evs : List CEvent) : Bool :=
+  evs.all (fun e => !(e.pre.displayedLineCount.isNone && !e.res.writes.isEmpty) ||
+    decide (e.res.st.formatLineCount ≤ k))
+
 /-! ## Deciders for the hypotheses of the theorems (Props/C16 `hyps_decide`)
 
 The hypotheses `SingleChars`, `barWidth < 2^52`, `CleanCfg`, `CleanOp` (Lemmas/Progress*.lean) speak
